@@ -105,6 +105,9 @@ func runWitnesses(ctx *Ctx) error {
 		if w.Mod != nil {
 			w.Mod(&cfg)
 		}
+		if ps, _ := w.Doc["paths"].(J); len(ps) == 0 {
+			cfg.OutputOptions.SkipPrune = true // a document without operations: keep its components
+		}
 		// 1. generation in a child process: crash / hang become observations
 		rf := filepath.Join(ctx.Work, fmt.Sprintf("witness-%d.json", i))
 		full := cfg
